@@ -1971,6 +1971,63 @@ def run_transl(ctx, M):
     ctx.correspond("transl", pairs)
 
 
+# ------------------------------------------------------------------------------------------------
+# history / object-identity probes (harness/histories.py): the MBXML number / date-time writers and readers, described once
+def ENTRY_POINTS():
+    import datetime as _dt
+
+    import histories as H
+
+    M = _mbxml()
+    zones = [_dt.timezone.utc, _dt.timezone(_dt.timedelta(hours=1)), _dt.timezone(_dt.timedelta(hours=-8)), _dt.timezone(_dt.timedelta(hours=5, minutes=45))]
+
+    def u(rng):
+        return rng.choice([0, 1, 127, 128, 16383, 16384, U_MAX, rng.getrandbits(rng.randrange(1, 33))])
+
+    def infotime(rng):
+        t = _dt.datetime(rng.randrange(2000, 2060), rng.randrange(1, 13), rng.randrange(1, 29), rng.randrange(24), rng.randrange(60), rng.randrange(60))
+        r = rng.random()
+        if r < 0.45:
+            return (t.replace(tzinfo=rng.choice(zones)),)
+        if r < 0.7:
+            return (t,)
+        if r < 0.85:
+            return (t.strftime("%Y%m%d%H%M%S"),)
+        return (int(t.strftime("%Y%m%d%H%M%S")),)
+
+    def rd(write, gen):
+        def make(rng):
+            b = write(*gen(rng))
+            pre = bytes(rng.getrandbits(8) | 0x80 for _ in range(rng.randrange(3)))
+            return (pre + b + bytes(rng.getrandbits(8) for _ in range(rng.randrange(3))), len(pre))
+        return make
+
+    def fl(rng):
+        return (rng.choice([0.0, 0.5, 1.0, 127.9921875, rng.randrange(2**20) / 128.0, rng.getrandbits(24) / 16384.0]), rng.randrange(1, 4))
+
+    def sfl(rng):
+        v, p = fl(rng)
+        return (-v if rng.random() < 0.5 else v, p)
+
+    def deg(hi):
+        return lambda rng: (rng.choice([0.0, float(hi), rng.randrange(hi * 10**6) / 1e6]),)
+
+    xml = lambda b: H.canon(b)  # noqa: E731
+    return [
+        H.EP("write_uintvar", M.write_uintvar, lambda rng: (u(rng),), canon=xml, domain="uint"),
+        H.EP("write_sintvar", M.write_sintvar, lambda rng: (rng.choice([0, 1, -1, 63, 64, -64, S_MAX, -S_MAX, rng.getrandbits(31) - 2**30]),), canon=xml, domain="sint"),
+        H.EP("read_uintvar", M.read_uintvar, rd(M.write_uintvar, lambda rng: (u(rng),)), kind="decode", domain="read"),
+        H.EP("read_sintvar", M.read_sintvar, rd(M.write_sintvar, lambda rng: (rng.getrandbits(31) - 2**30,)), kind="decode", domain="read"),
+        H.EP("write_ufloatvar", M.write_ufloatvar, fl, canon=xml, domain="float"),
+        H.EP("write_sfloatvar", M.write_sfloatvar, sfl, canon=xml, domain="float"),
+        H.EP("read_ufloatvar", M.read_ufloatvar, rd(M.write_ufloatvar, fl), kind="decode", domain="read"),
+        H.EP("read_sfloatvar", M.read_sfloatvar, rd(M.write_sfloatvar, sfl), kind="decode", domain="read"),
+        H.EP("write_latitude", M.write_latitude, deg(90), canon=xml, domain="deg"),
+        H.EP("write_longitude", M.write_longitude, deg(180), canon=xml, domain="deg"),
+        H.EP("write_infotime", M.write_infotime, infotime, canon=xml, draws=4),
+    ]
+
+
 def run(ctx):
     logging.disable(logging.CRITICAL)
     M = _mbxml()
@@ -2044,6 +2101,9 @@ def run(ctx):
     run_infotime(ctx, M)
     run_ambient(ctx, M)
     run_random_reads(ctx, M)
+    import histories
+
+    histories.run(ctx, ENTRY_POINTS)
     ctx.exhaustive = False
 
 
@@ -2077,6 +2137,10 @@ def replay(obj):
     print(json.dumps(obj.get("type")), f.get("what"))
     for d in (obj.get("correspondence_differences") or [])[:5]:
         print("correspondence difference:", d)
+    if str(f.get("kind", "")).startswith("history:"):
+        import histories
+
+        return histories.replay(inp, ENTRY_POINTS)
     op = inp.get("op")
     cfg = inp.get("ambient")
     if cfg:
